@@ -122,8 +122,12 @@ func c29Lookahead(c *Ctx) {
 			c.Violate("cancellable parser panicked or died: "+firstN(out, 80), desc)
 			continue
 		}
-		if strings.HasSuffix(out, "error:context canceled") {
+		if strings.HasSuffix(out, "error:ctxstop") {
 			c.Count("lookahead family: cancelled")
+			continue
+		}
+		if i := strings.LastIndex(out, "error:context"); i >= 0 {
+			c.Violate("the parser returned `"+out[i+6:]+"`, which is not the error of the context it was given (ctx.Err() is `ctxstop`)", desc)
 			continue
 		}
 		c.Count("lookahead family: completed")
@@ -163,7 +167,7 @@ func c29ShippedLookahead(c *Ctx) {
 		units  []string // lookahead-heavy units
 	}
 	fams := []fam{
-		{"js", []string{"y ; "}, []string{"x = ( a ) => a ; ", "x = ( a , b ) => ( a ) ; ", "x = ( a ) ; ", "x = async ( a ) => 1 ; "}},
+		{"js", []string{"y ; "}, []string{"x = ( a ) => a ; ", "x = ( a , b ) => ( a ) ; ", "x = ( a ) ; ", "x = async ( a ) => 1 ; ", "x = ( p = ( a , b ) => 1 ) => 2 ; ", "x = ( p = ( q = ( a ) => 1 ) => 2 , c ) => 3 ; "}},
 		{"test", []string{"decl2 "}, []string{"eval ( 1.2 ) decl2 decl2 ", "eval ( 1.2 ) ", "eval ( a ) decl2 "}},
 	}
 	for _, f := range fams {
